@@ -377,31 +377,33 @@ def _check_clamp(ctx: Ctx, res: RuleResult, c: Cls, fld: str, limit_attr: tuple[
                         )
 
                     ok_val = is_limit(val)
-                    # controlling condition
-                    cur = parent(n)
+                    # controlling condition: `F is None or F > limit` in any spelling
+                    from ..util import bool_nnf, linear_cmp, nnf_literals, path_condition
+
                     cond_ok = False
                     why = "store is not guarded by `F is None or F > limit`"
-                    while cur is not None and cur is not m.node:
-                        if isinstance(cur, ast.If) and any(n is s for s in cur.body):
-                            ct = ctx.X.value_at(m, cur.test)
-                            has_none = contains(ct, lambda s: s[0] == "cmp" and s[1] == "is" and s[3] == ("const", None) and s[2][0] == "attr" and s[2][2] == fld)
-                            gt = False
-                            for s in subterms(ct):
-                                if s[0] == "cmp" and s[1] in (">", ">=", "<", "<="):
-                                    l_is_f = s[2][0] == "attr" and s[2][2] == fld
-                                    r_is_f = s[3][0] == "attr" and s[3][2] == fld
-                                    l_is_lim = is_limit(s[2])
-                                    r_is_lim = is_limit(s[3])
-                                    if l_is_f and r_is_lim and s[1] in (">", ">="):
-                                        gt = True
-                                    if r_is_f and l_is_lim and s[1] in ("<", "<="):
-                                        gt = True
-                            cond_ok = has_none and gt
-                            if not gt:
-                                why = "the clamp condition does not compare the threshold with its limit as `F > limit`"
-                            elif not has_none:
-                                why = "the default (None) is not replaced by the limit"
-                        cur = parent(cur)
+                    pc = path_condition(ctx, m, n)
+                    if pc:
+                        g_ = bool_nnf(("bool", "and", tuple(c_ if p else ("unary", "not", c_) for c_, p in pc)))
+                        disj = [it for it in (g_[1] if g_[0] == "or" else [g_])]
+                        lits = [(it[1], it[2]) for it in disj if it[0] == "lit"]
+                        is_f = lambda x: x[0] == "attr" and x[2] == fld  # noqa: E731
+                        has_none = any(p and a[0] == "cmp" and a[1] == "is" and a[3] == ("const", None) and is_f(a[2]) for a, p in lits)
+                        gt = False
+                        for a, p in lits:
+                            lc = linear_cmp(a, p)
+                            if lc is None:
+                                continue
+                            coeffs, const, op = lc
+                            fs = [x for x in coeffs if is_f(x)]
+                            ls = [x for x in coeffs if is_limit(x)]
+                            if op == ">=" and len(coeffs) == 2 and len(fs) == 1 and len(ls) == 1 and coeffs[fs[0]] > 0 and coeffs[ls[0]] == -coeffs[fs[0]] and const in (0, -1, -coeffs[fs[0]]):
+                                gt = True
+                        cond_ok = has_none and gt and len(lits) == len(disj)
+                        if not gt:
+                            why = "the clamp condition does not compare the threshold with its limit as `F > limit`"
+                        elif not has_none:
+                            why = "the default (None) is not replaced by the limit"
                     ok = ok_val and cond_ok
                     res.add(m, n, f"`{fld}` is clamped: replaced by {'.'.join(limit_attr)} iff None or larger", ok,
                             "" if ok else (why if ok_val else f"clamped to `{show(val, 60)}` instead of {'.'.join(limit_attr)}"),
